@@ -241,7 +241,9 @@ theorem adaptLeaf_conf (O : Oracle) (ll lk : Bool) (l : Leaf) (v w : Val) (h : a
   cases l <;> simp only [adaptLeaf] at h
   · cases v <;> simp at h; subst h; simp [confL]
   · split at h <;> simp at h; subst h; simp [confL]
-  · split at h <;> simp at h <;> (subst h; simp [confL])
+  · have h' : adaptLeaf O .float v = .ok w := by simpa only [adaptLeaf] using h
+    obtain ⟨r, rfl, _⟩ := adaptLeaf_float_ok O v w h'
+    simp [confL]
   · split at h <;> simp at h; subst h; simp [confL]
   · split at h <;> simp at h; subst h; simp [confL]
 
@@ -249,7 +251,9 @@ theorem adaptLeaf_hashable (O : Oracle) (l : Leaf) (v w : Val) (h : adaptLeaf O 
   cases l <;> simp only [adaptLeaf] at h
   · cases v <;> simp at h; subst h; simp [hashable]
   · split at h <;> simp at h; subst h; simp [hashable]
-  · split at h <;> simp at h <;> (subst h; simp [hashable])
+  · have h' : adaptLeaf O .float v = .ok w := by simpa only [adaptLeaf] using h
+    obtain ⟨r, rfl, _⟩ := adaptLeaf_float_ok O v w h'
+    simp [hashable]
   · split at h <;> simp at h; subst h; simp [hashable]
   · split at h <;> simp at h; subst h; simp [hashable]
 
